@@ -168,6 +168,13 @@ def run(ctx):
             ctx.distinct.add_rows(np.full(le.size, p), np.full(le.size, lo), np.full(le.size, hi), u)
         if ci < 3:
             ctx.sample({"index": p, "lower": lo, "upper": hi, "u": grid[:6].tolist()})
+    # ---- the diagnostic plot is an observer: event i still carries the image of its own uniform number
+    from .. import plotobs
+
+    for spec_ in (Simulation.PowerSpectrum(index=2.0, lower_bound=7.0, upper_bound=11.0), Simulation.PowerSpectrum(index=1.0, lower_bound=6.0, upper_bound=12.0), Simulation.MonoSpectrum(log_nu_energy=9.25)):
+        cpl = NssConfig()
+        cpl.simulation.spectrum = spec_
+        plotobs.check_stage(ctx, f"Spectra {spec_!r}", lambda: S.Spectra(cpl), lambda o, kw: o(700, **kw), (), "cdf", seed=int(rng.integers(2**31)))
     # ---- history: one configuration / spectrum object, edited in place and copied between calls
     cfg = NssConfig()
     cfg.simulation.spectrum = Simulation.PowerSpectrum(index=2.0, lower_bound=6.0, upper_bound=12.0)
@@ -217,7 +224,7 @@ def run(ctx):
     ctx.observe("ill_conditioned_index_cases_judged_with_widened_band", nobs_ill)
     ctx.observe("accepted_by_log_energy_band_1e-12", nrepr)
     ctx.count("contracts", ncontract["n"])
-    for m in ("mono", "bounds", "product", "cdf", "monotone", "no-raise", "contracts", "history"):
+    for m in ("plots", "mono", "bounds", "product", "cdf", "monotone", "no-raise", "contracts", "history"):
         ctx.require(m)
     return ctx.finish(
         rule="(index, lower, upper) from a boundary catalogue (index in {0,.5,.999,1,1.001,...,4} x 5 bounds) plus seeded random; per configuration 35 uniform numbers (14 hostile incl. 0, denormals, 1-2^-53, 1; grid; random) through the RNG stub and 40 from the real generator observed by the RNG spy; a case is one distinct (index, bounds, u)",
